@@ -203,6 +203,10 @@ def programs_arrays(tier):
         F("e", T_u(5), (0, 5), array=(13, None)),                 # 0..=64: the last element's top bit is exactly bit 64
         F("g", T_u(8), (65, 8), array=(2, 16)),
     ], name="Sart64")], props=("C03", "C16")))
+    # the largest array a bitfield can hold (128 elements): const-usability of its builder step and its inventory (seed C15-m: an unrolled
+    # chain replaced by a non-const loop for count >= 128)
+    progs.append(Program("armax", structs=[S("armax128", 128, [F("f", T_bool(), (0, 1), array=(128, None))], name="Sarmax128"),
+                                            S("armax64", 64, [F("g", T_u(1), (0, 1), array=(64, None))], name="Sarmax64")], props=("C15", "C14")))
     progs.append(Program("arnt", structs=[S("arnt8", 8, [
         F("a", T_u(2), (0, 2), array=(2, 6)),                     # 0..=1, 6..=7: stride 6 does not tile u8, last element at the top
     ], name="Sarnt8"), S("arnt32", 32, [
